@@ -5,13 +5,14 @@ of actions.
 import Kap.Proofs.C17Process
 namespace Kap.C17
 
-theorem good_loopIter {E : Env} (hincr : Incr E.nx) {s : St} (h : Good E s) : Good E (loopIter E s).1 := by
+theorem good_loopIter {E : Env} (hincr : Incr E.nx) {s : St} (h : Good E s) (skip : List Nat) :
+    Good E (loopIter E skip s).1 := by
   unfold loopIter
   split
   · exact h.congr rfl rfl rfl rfl rfl
   · split
     · exact h.congr rfl rfl rfl rfl rfl
-    · have hp := good_process hincr h
+    · have hp := good_process hincr h skip
       simp only
       split
       · exact hp.congr rfl rfl rfl rfl rfl
@@ -30,10 +31,10 @@ theorem good_act {E : Env} (hincr : Incr E.nx) {s : St} (h : Good E s) (a : Act)
     split
     · exact h.congr rfl rfl rfl rfl rfl
     · exact h
-  | iter =>
+  | iter skip =>
     simp only [act]
     split
-    · exact (good_loopIter hincr h).congr rfl rfl rfl rfl rfl
+    · exact (good_loopIter hincr h skip).congr rfl rfl rfl rfl rfl
     · exact h
   | done id res cpok => exact good_done h id res cpok
 
@@ -47,7 +48,7 @@ theorem runActs_append (E : Env) (s : St) (a b : List Act) : runActs E s (a ++ b
 
 /-! ### the harness ops are action sequences -/
 
-theorem loopRun_acts (E : Env) : ∀ (f : Nat) (s : St), ∃ as, loopRun E f s = runActs E s as := by
+theorem loopRun_acts (E : Env) (skip : List Nat) : ∀ (f : Nat) (s : St), ∃ as, loopRun E skip f s = runActs E s as := by
   intro f
   induction f with
   | zero => intro s; exact ⟨[], rfl⟩
@@ -56,11 +57,11 @@ theorem loopRun_acts (E : Env) : ∀ (f : Nat) (s : St), ∃ as, loopRun E f s =
     unfold loopRun
     by_cases hsp : s.spinning = true
     · simp only [hsp, ite_true]
-      have hiter : act E s Act.iter = { (loopIter E s).1 with spinning := (loopIter E s).2 } := by
+      have hiter : act E s (Act.iter skip) = { (loopIter E skip s).1 with spinning := (loopIter E skip s).2 } := by
         simp [act, hsp]
-      by_cases hc : (loopIter E s).2 = true
+      by_cases hc : (loopIter E skip s).2 = true
       · simp only [hc, ite_true]
-        have hspin : (loopIter E s).1.spinning = true := by
+        have hspin : (loopIter E skip s).1.spinning = true := by
           unfold loopIter
           split
           · simpa using hsp
@@ -70,16 +71,16 @@ theorem loopRun_acts (E : Env) : ∀ (f : Nat) (s : St), ∃ as, loopRun E f s =
               split
               · simpa [process] using hsp
               · split <;> simpa [process] using hsp
-        have heq : act E s Act.iter = (loopIter E s).1 := by
+        have heq : act E s (Act.iter skip) = (loopIter E skip s).1 := by
           rw [hiter, hc, ← hspin]
         split
-        · exact ⟨[Act.iter], by simp [runActs, heq]⟩
-        · obtain ⟨as, has⟩ := ih (loopIter E s).1
-          exact ⟨Act.iter :: as, by simp [runActs, heq] at has ⊢; exact has⟩
-      · have hc' : (loopIter E s).2 = false := by simpa using hc
+        · exact ⟨[(Act.iter skip)], by simp [runActs, heq]⟩
+        · obtain ⟨as, has⟩ := ih (loopIter E skip s).1
+          exact ⟨(Act.iter skip) :: as, by simp [runActs, heq] at has ⊢; exact has⟩
+      · have hc' : (loopIter E skip s).2 = false := by simpa using hc
         simp only [hc', Bool.false_eq_true, ite_false]
-        obtain ⟨as, has⟩ := ih { (loopIter E s).1 with spinning := false }
-        refine ⟨Act.iter :: as, ?_⟩
+        obtain ⟨as, has⟩ := ih { (loopIter E skip s).1 with spinning := false }
+        refine ⟨(Act.iter skip) :: as, ?_⟩
         simp only [runActs, List.foldl] at has ⊢
         rw [hiter, hc']; exact has
     · have hsp' : s.spinning = false := by simpa using hsp
@@ -95,42 +96,43 @@ theorem loopRun_acts (E : Env) : ∀ (f : Nat) (s : St), ∃ as, loopRun E f s =
         simp only [ht', Bool.false_eq_true, ite_false]
         exact ⟨[], rfl⟩
 
-theorem settle_acts (E : Env) (s : St) : ∃ as, settle E s = runActs E s as := by
+theorem settle_acts (E : Env) (skip : List Nat) (s : St) : ∃ as, settle E skip s = runActs E s as := by
   unfold settle
-  obtain ⟨a1, h1⟩ := loopRun_acts E fuel s
-  obtain ⟨a2, h2⟩ := loopRun_acts E fuel (kick (loopRun E fuel s))
-  obtain ⟨a3, h3⟩ := loopRun_acts E fuel (kick (loopRun E fuel (kick (loopRun E fuel s))))
+  obtain ⟨a1, h1⟩ := loopRun_acts E skip fuel s
+  obtain ⟨a2, h2⟩ := loopRun_acts E skip fuel (kick (loopRun E skip fuel s))
+  obtain ⟨a3, h3⟩ := loopRun_acts E skip fuel (kick (loopRun E skip fuel (kick (loopRun E skip fuel s))))
   refine ⟨a1 ++ [Act.fire] ++ a2 ++ [Act.fire] ++ a3, ?_⟩
   rw [h3, h2, h1]
   simp [runActs, List.foldl_append, act]
 
-theorem step_acts (E : Env) (s : St) (op : Op) : ∃ as, step E s op = runActs E s as := by
+theorem step_acts (E : Env) (skip : List Nat) (s : St) (op : Op) : ∃ as, step E skip s op = runActs E s as := by
   cases op with
   | sched id sc off last =>
-    obtain ⟨as, h⟩ := settle_acts E (schedule E s id sc off last)
+    obtain ⟨as, h⟩ := settle_acts E skip (schedule E s id sc off last)
     exact ⟨Act.sched id sc off last :: as, by simp only [step, h]; rfl⟩
   | rel id =>
-    obtain ⟨as, h⟩ := settle_acts E (release s id)
+    obtain ⟨as, h⟩ := settle_acts E skip (release s id)
     exact ⟨Act.rel id :: as, by simp only [step, h]; rfl⟩
   | adv d =>
     simp only [step]
     split
-    · exact settle_acts E s
-    · obtain ⟨as, h⟩ := settle_acts E { s with now := s.now + d, trace := Ev.clock (s.now + d) :: s.trace }
+    · exact settle_acts E skip s
+    · obtain ⟨as, h⟩ := settle_acts E skip { s with now := s.now + d, trace := Ev.clock (s.now + d) :: s.trace }
       exact ⟨Act.adv d :: as, by rw [h]; rfl⟩
   | done id res cpok =>
-    obtain ⟨as, h⟩ := settle_acts E (done E s id res cpok)
+    obtain ⟨as, h⟩ := settle_acts E skip (done E s id res cpok)
     exact ⟨Act.done id res cpok :: as, by simp only [step, h]; rfl⟩
 
-def runOps (E : Env) (s : St) (ops : List Op) : St := ops.foldl (step E) s
+/-- Ops, each with the skip list of its loop passes. -/
+def runOps (E : Env) (s : St) (ops : List (List Nat × Op)) : St := ops.foldl (fun s p => step E p.1 s p.2) s
 
-theorem runOps_acts (E : Env) (ops : List Op) : ∀ s, ∃ as, runOps E s ops = runActs E s as := by
+theorem runOps_acts (E : Env) (ops : List (List Nat × Op)) : ∀ s, ∃ as, runOps E s ops = runActs E s as := by
   induction ops with
   | nil => intro s; exact ⟨[], rfl⟩
   | cons op ops ih =>
     intro s
-    obtain ⟨a1, h1⟩ := step_acts E s op
-    obtain ⟨a2, h2⟩ := ih (step E s op)
+    obtain ⟨a1, h1⟩ := step_acts E op.1 s op.2
+    obtain ⟨a2, h2⟩ := ih (step E op.1 s op.2)
     refine ⟨a1 ++ a2, ?_⟩
     rw [runActs_append, ← h1, ← h2]; rfl
 
